@@ -283,22 +283,6 @@ def run(ctx):
     truth_values = [True, False, 0, 3, None]
     n_formulas = (120000 if thorough else 6000) // ctx.nshards
 
-    # ---- what this process did before: AND / OR have met empty texts (a text
-    # is not a truth value the statement speaks about; whatever comes out, the
-    # evaluations that follow are judged as usual) ---------------------------
-    pre = {'A1': '=""', 'A2': 0, 'A3': False, 'P1': '=AND(A1,TRUE)',
-           'P2': '=OR(A1,FALSE)', 'P3': '=AND("",TRUE)', 'P4': '=OR(A1:A3)',
-           'P5': '=AND(A1:A1)', 'P6': '=IF(A1="",AND(A1,A1),0)'}
-    try:
-        ev_pre = Evaluator(subject.compile_dict(pre))
-        for k in ('P1', 'P2', 'P3', 'P4', 'P5', 'P6'):
-            subject.outcome_of(lambda: ev_pre.evaluate(f'{S}!{k}'))
-            ctx.event('empty_text_prelude_evaluations')
-        ev_pre.set_cell_value(f'{S}!A2', '')
-        subject.outcome_of(lambda: ev_pre.evaluate(f'{S}!P4'))
-    except Exception as e:  # noqa
-        ctx.note(f'empty-text prelude raised {e!r}')
-
     batch = []
     groups_done = [0]
 
@@ -490,8 +474,26 @@ def run(ctx):
         for a in ('B1', 'B2', 'B3', 'B4', 'B5'):
             subject.outcome_of(lambda: ev.evaluate(f'{S}!{a}'))
         ctx.event('foreign_namespace_evaluations', 5)
+    # ---- what this process did before: AND / OR have met empty texts (a text
+    # is not a truth value the statement speaks about; whatever comes out, the
+    # evaluations that follow are judged as usual) ---------------------------
+    def empty_text_prelude():
+        pre = {'A1': '=""', 'A2': 0, 'A3': False, 'P1': '=AND(A1,TRUE)',
+               'P2': '=OR(A1,FALSE)', 'P3': '=AND("",TRUE)', 'P4': '=OR(A1:A3)',
+               'P5': '=AND(A1:A1)', 'P6': '=IF(A1="",AND(A1,A1),0)'}
+        try:
+            ev_pre = Evaluator(subject.compile_dict(pre))
+            for k in ('P1', 'P2', 'P3', 'P4', 'P5', 'P6'):
+                subject.outcome_of(lambda: ev_pre.evaluate(f'{S}!{k}'))
+                ctx.event('empty_text_prelude_evaluations')
+            ev_pre.set_cell_value(f'{S}!A2', '')
+            subject.outcome_of(lambda: ev_pre.evaluate(f'{S}!P4'))
+        except Exception as e:  # noqa
+            ctx.note(f'empty-text prelude raised {e!r}')
+
     if ctx.shard % 2 == 0:
         foreign_namespace()
+    empty_text_prelude()
 
     # ---- exhaustive: IF over every truth value, each poison, omitted else ---
     g = G(rng)
